@@ -949,18 +949,19 @@ func (r *Runner) Run(ctx context.Context, node syntax.Node) error {
 	default:
 		return fmt.Errorf("node can only be File, Stmt, or Command: %T", node)
 	}
-	// A cancelled context must not look like a success, such as when it cut short
-	// a blocked read in the condition of the last loop in the program.
-	if err := ctx.Err(); err != nil && r.exit.ok() {
-		r.exit.fatal(err)
-	}
-	// A bare Command bypasses stmt, which normally updates lastExit.
-	r.lastExit = r.exit
 	// Running an entire file implies an exit; a statement or command
 	// only exits the shell via the exit builtin, errexit, and so on.
 	if _, ok := node.(*syntax.File); ok || r.exit.exiting {
 		r.trapCallback(ctx, r.callbackExit, "exit")
 	}
+	// A cancelled context must not look like a success, such as when it cut short
+	// a blocked read in the condition of the last loop in the program,
+	// or the exit trap, whose own result is discarded.
+	if err := ctx.Err(); err != nil && r.exit.ok() {
+		r.exit.fatal(err)
+	}
+	// A bare Command bypasses stmt, which normally updates lastExit.
+	r.lastExit = r.exit
 	maps.Insert(r.Vars, r.writeEnv.Each)
 	// Return the first of: a fatal error, a non-fatal handler error, or the exit code.
 	if err := r.exit.err; err != nil {
